@@ -802,6 +802,21 @@ func runPackStream(o *Opts) {
 			}
 		}
 	}
+	// the bound on the length of a link chain that dereferencing follows: chains of 39, 40 and 41 links
+	for _, k := range []int{38, 39, 40} {
+		r := NewRng(11)
+		tree, _, _ := genPackTree(r, false)
+		src := tdir(0o755, map[string]*TNode{"a": tfile("root-a", 0o644), "l": tlink("../outside/c0")})
+		for i := 0; i < k; i++ {
+			t := fmt.Sprintf("c%d", i+1)
+			if i == k-1 {
+				t = "f"
+			}
+			tree.Kids["w"].Kids["outside"].Kids[fmt.Sprintf("c%d", i)] = tlink(t)
+		}
+		tree.Kids["w"].Kids["src"] = src
+		jobs = append(jobs, job{&PackCase{Init: tree, Src: "/w/src", Cwd: "/", Deref: true, FailAt: -1}, "", true, rng.Fork()})
+	}
 	for i := 0; i < n; i++ {
 		risky := i%12 == 11
 		tree, hasOut, ign := genPackTree(rng, risky)
